@@ -514,8 +514,13 @@ func checkGrammar(ctx *core.Ctx, who string, bi int, rb *cm.RootBlock) {
 					}
 				}
 			case cm.CodeSpanKind:
-				for _, ch := range kids {
-					if ck := ch.Inline().Kind(); ck != cm.TextKind && ck != cm.IndentKind && ck != cm.SoftLineBreakKind {
+				for i, ch := range kids {
+					ck := ch.Inline().Kind()
+					if !isPhrasing(ck) {
+						fail("child_kind", "%s child %d is %s", k, i, core.KindName(ch))
+						break
+					}
+					if ck != cm.TextKind && ck != cm.IndentKind && ck != cm.SoftLineBreakKind {
 						ctx.Record("doc_rule:CodeSpan>"+core.KindName(ch), "%s", core.Quote(src))
 					}
 				}
@@ -527,8 +532,13 @@ func checkGrammar(ctx *core.Ctx, who string, bi int, rb *cm.RootBlock) {
 				if cc == 0 {
 					ctx.Record("doc_rule:HTMLTag_empty", "%s", core.Quote(src))
 				}
-				for _, ch := range kids {
-					if ck := ch.Inline().Kind(); ck != cm.RawHTMLKind && ck != cm.IndentKind && ck != cm.SoftLineBreakKind {
+				for i, ch := range kids {
+					ck := ch.Inline().Kind()
+					if !isPhrasing(ck) {
+						fail("child_kind", "%s child %d is %s", k, i, core.KindName(ch))
+						break
+					}
+					if ck != cm.RawHTMLKind && ck != cm.IndentKind && ck != cm.SoftLineBreakKind {
 						ctx.Record("doc_rule:HTMLTag>"+core.KindName(ch), "%s", core.Quote(src))
 					}
 				}
